@@ -110,6 +110,14 @@ fn huge_declared_lengths() {
             });
         }
     }
+    // two maximal runs followed by a literal run of three values: the literal items are counted one by one
+    for n in [2usize, 3] {
+        let mut d = runs(n, i64::MAX);
+        sleb(-3, &mut d); d.extend_from_slice(&[7, 8, 9]);
+        ok &= show(&format!("u64 runs={n} + 3 literals"), { let d = d.clone(); move || Column::<u64>::load(&d).map(|c| c.len()) });
+        ok &= show(&format!("prefix u32 runs={n} + 3 literals"), { let d = d.clone(); move || PrefixColumn::<u32>::load(&d).map(|c| c.len()) });
+        ok &= show(&format!("delta u64 runs={n} + 3 literals"), { let d = d.clone(); move || DeltaColumn::<u64>::load(&d).map(|c| c.len()) });
+    }
     let db = bool_runs(3, u64::MAX);
     ok &= show("bool runs=3 count=u64::MAX", move || {
         Column::<bool>::load(&db).map(|c| c.len())
